@@ -4,7 +4,7 @@
 From RV Require Import Base.
 From RV.Model Require Import Utf8 Indexer CodePointSet Insn IR Optimizer Unfold Emit.
 From RV.Spec Require Import IRSem IRShape.
-From RV.Proofs Require Import IndexerFacts OptDD OptMono OptWalk OptRel OptTop.
+From RV.Proofs Require Import NodeInd IndexerFacts OptDD OptMono OptWalk OptRel OptTop.
 
 Section AsciiText.
   Variable h : hay.
@@ -76,16 +76,17 @@ Section AsciiText.
     destruct (t b); [|discriminate]. intro H. inversion H; subst. apply as_step_inv. apply (as_byte_step fwd q b q' En).
   Qed.
 
-  Theorem text_ok_ascii : text_ok ix unicode h.
+  (* every position counts as well-formed *)
+  Theorem text_ok_ascii : text_ok ix unicode h (fun _ => True).
   Proof.
-    split; [|split; [|split]].
-    - intros fwd p c p' E. rewrite as_cnext_byte in E. destruct (as_byte_step fwd p c p' E) as [Hc _].
+    split; [intros; exact I|]. split; [intros; exact I|]. split; [|split; [|split]].
+    - intros fwd p c p' _ E. rewrite as_cnext_byte in E. destruct (as_byte_step fwd p c p' E) as [Hc _].
       unfold CODE_POINT_MAX. lia.
-    - intros fwd q. rewrite as_cnext_byte. destruct (next_byte fwd h q) as [e|[[b q1]|]] eqn:En; [exact I| |reflexivity].
+    - intros fwd q _. rewrite as_cnext_byte. destruct (next_byte fwd h q) as [e|[[b q1]|]] eqn:En; [exact I| |reflexivity].
       destruct (b <? 128) eqn:E128; [reflexivity|]. exists b, q1. split; [reflexivity|]. apply N.ltb_ge. exact E128.
-    - intros fwd q. rewrite as_cnext_byte. destruct (next_byte fwd h q) as [e|[[b q1]|]] eqn:En; [exact I| |reflexivity].
+    - intros fwd q _. rewrite as_cnext_byte. destruct (next_byte fwd h q) as [e|[[b q1]|]] eqn:En; [exact I| |reflexivity].
       destruct (b <? 128) eqn:E128; [reflexivity|]. exists b, q1. split; [reflexivity|]. apply N.ltb_ge. exact E128.
-    - intros body fwd s q q' H1 Es Esq.
+    - intros body fwd s q q' H1 _ Es Esq.
       destruct body; try discriminate H1; unfold single_step, leaf_code in Es.
       + (* Char *)
         inversion Es; subst s. cbn [run_insns] in Esq. unfold char_pike in Esq.
@@ -112,5 +113,18 @@ Section AsciiText.
         * inversion Es; subst s.
           destruct (next_if ix fwd h q (bracket_matches b)) as [e|[p1|]] eqn:En; try discriminate.
           inversion Esq; subst. eapply as_next_if_step; eauto.
+  Qed.
+
+  (* and every node stays among them *)
+  Lemma al_all_ascii : forall utf16 n, al ix unicode utf16 h (fun _ => True) n.
+  Proof.
+    intros utf16. induction n as [n Hleaf|l H|a b IHa IHb|id c nm IHc|neg bw sg eg c IHc|b mn mx g egs ege IHb|b mn mx g IHb] using node_ind2.
+    - destruct n; try contradiction; (split; [intros f fwd x r _ _; apply Forall_forall; intros; exact I|intros lb fwd s _ q q' _ _; exact I]).
+    - apply al_cat. exact H.
+    - split; assumption.
+    - exact IHc.
+    - exact IHc.
+    - exact IHb.
+    - exact IHb.
   Qed.
 End AsciiText.
